@@ -16,6 +16,7 @@ import (
 	"seata.apache.org/seata-go/pkg/protocol/codec"
 	"seata.apache.org/seata-go/pkg/protocol/message"
 	"seata.apache.org/seata-go/pkg/rm/tcc"
+	"seata.apache.org/seata-go/pkg/rm/tcc/fence"
 	"seata.apache.org/seata-go/pkg/tm"
 )
 
@@ -36,6 +37,9 @@ type recAction struct {
 	tryParam interface{}
 	invs     []c05Inv
 	failNext bool
+	// nothingToDoNext: the user method returns what the fence driver answers when the phase has been applied
+	// before (wrapped, as applications do)
+	nothingToDoNext bool
 	boolNext bool // the boolean the user method returns (independent of its error)
 }
 
@@ -55,6 +59,9 @@ func (a *recAction) record(kind string, bac *tm.BusinessActionContext) error {
 		inv.xid, inv.branch, inv.ctx = bac.Xid, bac.BranchId, bac.ActionContext
 	}
 	a.invs = append(a.invs, inv)
+	if a.nothingToDoNext {
+		return fmt.Errorf("confirm of %s: %w", a.name, fence.ErrPhaseAlreadyApplied)
+	}
 	if a.failNext {
 		return errors.New("user method failed")
 	}
@@ -390,6 +397,11 @@ func runC05(c *Ctx) {
 			res := []string{an, an, an, "ghost", "actB"}[r.Intn(5)]
 			dk := []string{"c", "c", "c", "e", "n", "m"}[r.Intn(6)]
 			uf := r.Chance(25)
+			// every seventh request: the method returns the fence's "nothing to do" - answered as done
+			applied := (i+q)%7 == 3
+			if applied {
+				uf = false
+			}
 			var data []byte
 			switch dk {
 			case "c":
@@ -409,6 +421,7 @@ func runC05(c *Ctx) {
 			if target != nil {
 				target.mu.Lock()
 				target.failNext = uf
+				target.nothingToDoNext = applied
 				target.boolNext = r.Bool() // all four (bool, error) shapes: only the error decides the status
 				before := len(target.invs)
 				target.mu.Unlock()
@@ -432,9 +445,12 @@ func runC05(c *Ctx) {
 			if uf {
 				ufTok = "1"
 			}
+			if applied {
+				ufTok = "2"
+			}
 			toks = append(toks, fmt.Sprintf("q:%d:%s:%s:%s:%s", msgID, kind, res, dk, ufTok))
 			// oracle for this request: a success status iff resource known, data readable, no user error
-			wantOK := actions[res] != nil && dk != "m" && !uf
+			wantOK := actions[res] != nil && dk != "m" && !uf // (uf is false for the fence's nothing-to-do)
 			gotOK, gotAny := false, 0
 			for _, l := range coord.Snapshot() {
 				switch rb := l.Msg.Body.(type) {
@@ -476,6 +492,7 @@ func runC05(c *Ctx) {
 					evs = append(evs, fmt.Sprintf("inv:%s:%s:%s:%s", inv.kind, x, b, ctxS))
 				}
 				a.failNext = false
+				a.nothingToDoNext = false
 				a.mu.Unlock()
 			}
 			for _, l := range coord.Snapshot() {
